@@ -39,6 +39,7 @@ def cases(draw, tier):
     if draw(st.integers(0, 2)) == 0:
         c["unitaries"] = draw(gen.user_unitaries())
         alphabet = "".join(sorted(set("XYZ") | set(c["unitaries"].keys())))
+    c["unitary_key_order"] = draw(st.sampled_from([0, 0, 1, 2]))      # insertion order of the letters in the dictionary (see gen.lib_unitary_dict)
     c["basis"] = draw(gen.basis_string(n, alphabet))
     D = 2 ** n
     if mode == "explicit_psi":
